@@ -460,6 +460,24 @@ def mutate(rng, s, nedits, letters=AA):
     return "".join(s)
 
 
+def long_family(rng, k, salt=0, letters=AA, lengths=None):
+    """A handful of sequences far longer than CDR3s, their lengths sitting on both sides of the usual implementation thresholds
+    (32 / 40 / 64 / 128 letters): for each length a random root, a relative within k edits (one of them by insertion, so that the
+    pair straddles the threshold) and an unrelated string; plus the empty string and two ordinary CDR3s. Distances between
+    unrelated long strings exceed 127."""
+    lengths = lengths or [(32, 40, 64)[salt % 3], (41, 65, 129)[(salt // 3) % 3], 140]
+    out = ["", "CASSLGQAYEQYF", "CASSLGQAYEQF"]
+    for L in lengths:
+        x = "".join(rng.choice(letters) for _ in range(L))
+        pos = rng.randrange(L + 1)
+        out.append(x)
+        out.append(x[:pos] + rng.choice(letters) + x[pos:])                  # L + 1 letters, one insertion away
+        out.append(mutate(rng, x, rng.randint(1, k), letters))
+    out.append("".join(rng.choice(letters) for _ in range(150)))              # unrelated to everything
+    rng.shuffle(out)
+    return out
+
+
 def repertoire(rng, n, letters=AA, minlen=6, maxlen=16, families=None, maxmut=3, short=1, dup=0.15,
                same_length=False):
     """CDR3-like repertoire: clonal families of mutated roots, exact duplicates, a few very short strings."""
